@@ -562,10 +562,15 @@ fn judge(root: &Path, schema: &gen::SchemaInfo, world: &World, recs: &[Rec], inf
     model::apply(&mut c, &ops);
     cands.push(c);
   }
+  // Was the in-flight commit applied in this image? Only decidable when applying it changes the contents.
+  let inflight_decidable = cands.len() == 2 && model::diff_views(&model::expected_view(schema, &cands[0]), &model::expected_view(schema, &cands[1])).is_some();
+  let last_committed = cands[0].clone();
   let Some(s_image) = cands.into_iter().find(|c| model::diff_views(&model::expected_view(schema, c), &v0).is_none()) else {
     problems.push(("image-contents-neither-last-nor-inflight".into(), format!("ids {:?}", v0.keys().collect::<Vec<_>>())));
     return None;
   };
+  // the image still shows the state before the in-flight commit: its operations are not committed yet
+  let inflight_not_applied = inflight_decidable && model::diff_views(&model::expected_view(schema, &last_committed), &v0).is_none();
   // recovered operations, as the real writer would see them
   let storage = FsStorage::new(root.to_path_buf());
   let rec = vcore::ctx::catch(|| Wal::last_pending_ops(&storage, &root.join("wal.log")));
@@ -614,7 +619,10 @@ fn judge(root: &Path, schema: &gen::SchemaInfo, world: &World, recs: &[Rec], inf
   recovered_ids.reverse();
   // every pending operation whose record survives completely must be recovered
   for (o, synced) in rec_ops.iter() {
-    if world.status[*o] == Status::Pending && !recovered_ids.contains(o) {
+    // the operations of a commit that was in flight are still owed when the image does not contain that
+    // commit (they were synced by the commit attempt): losing them here loses them for good
+    let owed = world.status[*o] == Status::Pending || (world.status[*o] == Status::Inflight && inflight_not_applied);
+    if owed && !recovered_ids.contains(o) {
       let behind_garbage = {
         let mut seen_garbage = false;
         let mut res = false;
@@ -629,7 +637,7 @@ fn judge(root: &Path, schema: &gen::SchemaInfo, world: &World, recs: &[Rec], inf
         res
       };
       problems.push((
-        format!("pending-op-not-recovered:{}:{}", if *synced { "synced" } else { "unsynced-but-durable" }, if behind_garbage { "behind-torn-record" } else { "no-garbage-before" }),
+        format!("{}-op-not-recovered:{}:{}", if world.status[*o] == Status::Inflight { "inflight-commit-not-applied-and-its" } else { "pending" }, if *synced { "synced" } else { "unsynced-but-durable" }, if behind_garbage { "behind-torn-record" } else { "no-garbage-before" }),
         format!(
           "operation {} ({}) survives completely in the log but was not recovered [log records: {}; recovered: {:?}]",
           o,
